@@ -13,7 +13,7 @@ ROOT = "/tmp/seedrr"
 
 
 def sh(cmd, cwd=None, env=ENV):
-    p = subprocess.run(cmd, cwd=cwd, env=env, capture_output=True, text=True)
+    p = subprocess.run(cmd, cwd=cwd, env=env, capture_output=True, text=True, errors="replace")
     return p.returncode, p.stdout + p.stderr
 
 
